@@ -530,14 +530,17 @@ def subprocess_crosscheck(spec, argv, texts, stdin, r, res):
         for hs in ('0', '12345'):
             code, out, err = cli.run_subprocess(real + ['--encoding', 'utf-8'],
                                                 stdin_bytes=texts[0].encode('utf-8') if stdin else b'',
-                                                cwd=d, hashseed=hs)
-            outs.append((code, out))
+                                                cwd=d, hashseed=hs, unbuffered=(hs != '0'))
+            outs.append((code, out, err))
         res.hit('probe.subprocess_crosscheck')
         res.event('subprocess', outs[0][0], digest.sha(outs[0][1].hex()))
-        if r.exc is None and (outs[0][0] != r.exit or outs[0][1] != r.stdout_bytes):
-            res.violate('subprocess', 'in-process-vs-subprocess-differ', argv=argv, exit=[r.exit, outs[0][0]],
-                        stdout=[r.stdout[:2000], outs[0][1].decode('utf-8', 'replace')[:2000]],
-                        stderr=err.decode('utf-8', 'replace')[-1200:])
+        # child 0: hash seed 0, block-buffered stdout (a pipe); child 1: another hash seed, unbuffered stdout
+        for k, (code, out, err) in enumerate(outs):
+            if r.exc is None and (code != r.exit or out != r.stdout_bytes):
+                res.violate('subprocess', 'in-process-vs-subprocess-differ', argv=argv, exit=[r.exit, code], child=k,
+                            stdout=[r.stdout[:2000], out.decode('utf-8', 'replace')[:2000]],
+                            stderr=err.decode('utf-8', 'replace')[-1200:])
+                break
     finally:
         shutil.rmtree(d, ignore_errors=True)
 
